@@ -251,6 +251,7 @@ Section Interp.
       | GENotNil e1 => eval e1 env w (one (fun v w1 => k [GVBool (negb (is_nil v))] w1))
       | GEIsNil e1 => eval e1 env w (one (fun v w1 => k [GVBool (is_nil v)] w1))
       | GEUnknown src => GNotUnderstood src
+      | _ => GStuck "an expression of the second fragment (Lib/GoStmt.v): no meaning for a wrapper"
       end.
 
     Fixpoint eval_each (es : list gexpr) (env : genv) (w : gworld) (k : kont) : gans :=
@@ -300,6 +301,7 @@ Section Interp.
       | GSReturn es => eval_rhs es env w kr
       | GSExpr e => eval e env w (fun _ w1 => kn env w1)
       | GSUnknown src => GNotUnderstood src
+      | _ => GStuck "a statement of the second fragment (Lib/GoStmt.v): no meaning for a wrapper"
       end.
 
     Fixpoint exec_list (l : list gstmt) (env : genv) (w : gworld) (kn : genv -> gworld -> gans) (kr : kont) : gans :=
